@@ -680,7 +680,10 @@ fn print_snapshot(i: usize, app: &mut App, prog: &Prog) -> String
     let mut alive: Vec<u32> = prog.all_ids().into_iter().filter(|id| world.get_entity(resolve(*id)).is_ok()).collect();
     alive.sort();
     let mut xl: Vec<(u32, u32)> = Vec::new();
-    for id in prog.ents.iter()
+    // every id the program has bound so far (declared or not: `spe:9` binds the generator's stale id), as in the model
+    let mut ids: Vec<u32> = with_names(|n| n.fwd.keys().copied().collect());
+    for id in prog.ents.iter() { if !ids.contains(id) { ids.push(*id); } }
+    for id in ids.iter()
     {
         let e = resolve(*id);
         if prog.xr.contains_key(&0) && verif::has_entity_world_local::<Xr<0>>(world, e) { xl.push((0, *id)); }
